@@ -206,6 +206,14 @@ def _xor(a, b):
 IS_RE = re.compile(r"^is\((.*); ([A-Za-z0-9_]+)\)$")
 
 
+UNIVERSE = {}  # rendered subject (bound-variable numbers blanked) -> names of all variants of its enum type, filled while formulas are rendered
+_TAGNUM = re.compile(r"\[\*(<?)#(\d+|\?)\]")
+
+
+def universe_key(subject):
+    return _TAGNUM.sub("[*#]", subject)
+
+
 def exclusivity(atoms):
     """axioms: two `is(P; V)` atoms with the same P and different V are never both true"""
     groups = {}
@@ -218,6 +226,10 @@ def exclusivity(atoms):
         for i in range(len(ats)):
             for j in range(i + 1, len(ats)):
                 ax.append(Not(And(atom(ats[i]), atom(ats[j]))))
+        # a value of an enum type is of one of its variants: when every variant is mentioned, one of the atoms holds
+        u = UNIVERSE.get(universe_key(p))
+        if u and set(IS_RE.match(a).group(2) for a in ats) >= set(u):
+            ax.append(Or(*[atom(a) for a in ats if IS_RE.match(a).group(2) in u]))
     # an atom about some element X[*..] of a collection can only hold if the collection is not empty
     LEN_RE = re.compile(r"^gt\(len\((.*)\), 0\)$")
     for a in atoms:
